@@ -129,6 +129,23 @@ func init() {
 		want, _ := fresh.Enforce("alice", "tenant2", "data2", "read")
 		return got != want, fmt.Sprintf("g alice admin tenant*; g bob admin tenant2; keyMatch registered, then replaced by keyMatch2 (under which tenant* matches nothing): Enforce(alice,tenant2,data2,read) live=%v, fresh enforcer with keyMatch2 only=%v", got, want)
 	}
+	// D40: the RBAC calls composed of several auto-saved management calls are not atomic under an adapter fault
+	witnesses["D40-composite-rbac-calls-partial"] = func() (bool, string) {
+		a := mem.New()
+		a.Lines = []mem.Line{{PType: "p", Rule: []string{"alice", "data2", "read"}}, {PType: "p", Rule: []string{"admin", "data1", "read"}}, {PType: "g", Rule: []string{"alice", "admin"}}}
+		e, err := casbin.NewEnforcer(mustModel(rbacText), a)
+		if err != nil {
+			return false, err.Error()
+		}
+		gBefore, _ := e.GetGroupingPolicy()
+		decBefore, _ := e.Enforce("alice", "data1", "read")
+		a.Arm(2) // DeleteUser = RemoveFilteredGroupingPolicy, then RemoveFilteredPolicy: the second adapter call fails
+		_, err = e.DeleteUser("alice")
+		gAfter, _ := e.GetGroupingPolicy()
+		decAfter, _ := e.Enforce("alice", "data1", "read")
+		return err != nil && (fmt.Sprint(gBefore) != fmt.Sprint(gAfter) || decBefore != decAfter),
+			fmt.Sprintf("DeleteUser(alice) with its second adapter call failing returned %v; grouping rules before=%v after=%v; Enforce(alice,data1,read) before=%v after=%v", err, gBefore, gAfter, decBefore, decAfter)
+	}
 	// D20: the filtered file adapter splits lines at raw commas and skips rules shorter than the filter
 	witnesses["D20-filter-quoted-fields"] = func() (bool, string) {
 		dir, _ := os.MkdirTemp("", "d20")
